@@ -225,3 +225,89 @@ var keywordish = func() map[string]bool {
 	delete(m, "end")
 	return m
 }()
+
+// recase rewrites the case of the words of a statement in place (blanks, quoted names, strings and comments are left
+// alone; words that start with a digit - numbers, 0x1F - too). SQL keywords are case-insensitive, so the parser must
+// still accept the statement; identifiers keep whatever spelling they get. style: 0 upper, 1 lower, 2 aLtErNaTiNg,
+// 3 Title, 4 keep; pick(i) chooses the style of the i-th word.
+func recaseWith(s string, pick func(i int) int) string {
+	out := []byte(s)
+	word := 0
+	for i := 0; i < len(out); {
+		c := out[i]
+		switch {
+		case c == '\'' || c == '"' || c == '`':
+			j := i + 1
+			for j < len(out) {
+				if out[j] == '\\' && c == '\'' && j+1 < len(out) {
+					j += 2
+					continue
+				}
+				if out[j] == c {
+					if j+1 < len(out) && out[j+1] == c {
+						j += 2
+						continue
+					}
+					break
+				}
+				j++
+			}
+			i = j + 1
+		case c == '/' && i+1 < len(out) && out[i+1] == '*':
+			j := strings.Index(s[i+2:], "*/")
+			if j < 0 {
+				i = len(out)
+			} else {
+				i = i + 2 + j + 2
+			}
+		case isWordByte(c):
+			j := i
+			for j < len(out) && isWordByte(out[j]) {
+				j++
+			}
+			if !(c >= '0' && c <= '9') {
+				style := pick(word)
+				word++
+				for k := i; k < j; k++ {
+					b := out[k]
+					isLower, isUpper := b >= 'a' && b <= 'z', b >= 'A' && b <= 'Z'
+					if !isLower && !isUpper {
+						continue
+					}
+					up := false
+					switch style {
+					case 0:
+						up = true
+					case 1:
+						up = false
+					case 2:
+						up = (k-i)%2 == 0
+					case 3:
+						up = k == i
+					default:
+						up = isUpper
+					}
+					if up && isLower {
+						out[k] = b - 32
+					} else if !up && isUpper {
+						out[k] = b + 32
+					}
+				}
+			}
+			i = j
+		default:
+			i++
+		}
+	}
+	return string(out)
+}
+
+// recase draws the styles: one style for the whole statement, or one per word.
+func recase(t *rapid.T, s string) string {
+	mode := rapid.IntRange(0, 5).Draw(t, "case_mode")
+	if mode <= 3 {
+		return recaseWith(s, func(int) int { return mode })
+	}
+	styles := rapid.SliceOfN(rapid.IntRange(0, 4), 12, 12).Draw(t, "case_styles")
+	return recaseWith(s, func(i int) int { return styles[i%len(styles)] })
+}
